@@ -254,7 +254,7 @@ class WriterRun(object):
   def s_body(self):
     # reactor.stop(): the 'before shutdown' triggers the service registered, then running := False
     self.sched.point('op')
-    self.ev.append(dict(k='stopBefore'))
+    self.ev.append(dict(k='stopBefore', now=int(self.now * 1024)))
     for phase, event, f in self.reactor.triggers:
       if phase == 'before' and event == 'shutdown':
         f()
